@@ -153,6 +153,67 @@ func evalCaptured2(src string) (Obs, string, string, []string) {
 			res = lib.Result{Class: lib.OutValue, Val: zygo.SexpNull}
 			return
 		}
+		if strings.HasPrefix(src, syntaxPrefix) {
+			// every line is a (mostly malformed) source text, read through each whole-text entry point
+			var sb strings.Builder
+			show := func(i int, via string, v zygo.Sexp, err error) {
+				if err != nil {
+					e := strings.ReplaceAll(norm(err.Error(), 'e'), "0x", "0X")
+					if len(e) > 400 {
+						e = e[:400] + "..."
+					}
+					fmt.Fprintf(&sb, "%d %s: ERROR %s\n", i, via, e)
+					return
+				}
+				t := "<go-nil>"
+				if v != nil {
+					t = v.SexpString(nil)
+				}
+				if len(t) > 200 {
+					t = t[:200] + "..."
+				}
+				fmt.Fprintf(&sb, "%d %s: %s\n", i, via, t)
+			}
+			dir, derr := os.MkdirTemp("", "c20-syn-")
+			if derr == nil {
+				defer os.RemoveAll(dir)
+			}
+			for i, line := range strings.Split(strings.TrimPrefix(src, syntaxPrefix), "\n") {
+				if line == "" {
+					continue
+				}
+				text := strings.ReplaceAll(line, "\\n", "\n") // the two characters \n in a line stand for a newline
+				func() {
+					defer func() {
+						if p := recover(); p != nil {
+							fmt.Fprintf(&sb, "%d: PANIC %v\n", i, p)
+							env = newEnv()
+						}
+					}()
+					r := lib.Eval(env, text, stepBudget)
+					show(i, "EvalString", r.Val, r.Err)
+					err := env.LoadStream(strings.NewReader(text))
+					show(i, "LoadStream", zygo.SexpNull, err)
+					env.Clear()
+					err = env.LoadString(text)
+					show(i, "LoadString", zygo.SexpNull, err)
+					env.Clear()
+					if derr == nil {
+						fn := dir + "/t.zy"
+						os.WriteFile(fn, []byte(text), 0600)
+						xs, err := env.ParseFile(fn)
+						show(i, "ParseFile", &zygo.SexpInt{Val: int64(len(xs))}, err)
+						env.Clear()
+					}
+					if !strings.Contains(text, "`") {
+						r = lib.Eval(env, "(read `"+text+"`)", stepBudget)
+						show(i, "read", r.Val, r.Err)
+					}
+				}()
+			}
+			res = lib.Result{Class: lib.OutValue, Val: &zygo.SexpStr{S: sb.String()}}
+			return
+		}
 		if strings.HasPrefix(src, eachLinePrefix) {
 			// one evaluation per line in the same interpreter; value or error text of every line
 			var sb strings.Builder
@@ -250,6 +311,11 @@ func disturb(k int, rng *lib.Rng, clean bool) {
 			`(gensym "tmp")`, `(gensym)`, `(gensym)`, `((fn [x] x) 1)`, `(def g2 (fn [a b] a))`, `(g2 1)`,
 			`(def a [10 20 30])`, `{a[1] + a[2]}`, `{a[0] = 5}`, `{b := a[2] * 2}`, `(def h (hash x:1))`, `{h.x + 1}`, `{h.x = 3}`,
 			`(for [(def i 0) (< i 3) (set i (+ i 1))] (cond (== i 1) (continue) i))`,
+			// in-place edits of every container a builtin handed out (a later interpreter must not see them)
+			`(def ml (methodls (snoopy)))`, `(aset ml 0 "edited-by-an-earlier-interpreter")`, `(def fl (fieldls (snoopy)))`, `(aset fl 0 "edited-field")`,
+			`(def ml2 (methodls (weather)))`, `(aset ml2 0 "edited")`, `(def fl2 (fieldls (hornet)))`, `(aset fl2 1 "edited")`,
+			`(def tl (typelist))`, `(aset tl 0 "edited-type")`, `(def ks (keys (snoopy cry:"a" pack:[1])))`, `(aset ks 0 (quote edited))`,
+			`(def rec (snoopy pack:[1 2 3]))`, `(aset (hget rec (quote pack)) 0 99)`, `(hset (hornet) (quote speed) 77)`,
 			`(defmac mm [a] ^(let [t 1] (+ ~a t)))`, `(mm 2)`, `(hset h (hash q:1) 2)`, `(aget a 9)`, `(+ 1 "s")`,
 		}
 		runNormal := func() {
@@ -410,6 +476,7 @@ func aliasGroups() [][]string {
 
 const cliPrefix = "#cli-countcalls\n"
 const eachLinePrefix = "#each-line\n"
+const syntaxPrefix = "#syntax-sweep\n"
 
 func runCli(script string) {
 	f, err := os.CreateTemp("", "c20-*.zy")
